@@ -561,7 +561,9 @@ func run(cfg wcfg, env *bubbleEnv, hist []event) (res result) {
 	defer x.w.close()
 	x.start = time.Now()
 	if cfg.Known {
-		x.r.members = [3]bool{true, true, true}
+		for i := 0; i < cfg.NPeers; i++ {
+			x.r.members[i] = true
+		}
 		x.w.setPeerset(x.members())
 	}
 	synctest.Wait()
